@@ -1,0 +1,17 @@
+//go:build verif
+// +build verif
+
+// Machine-checked contracts for package utf8lib (comment-only; read by /verif/govc).
+
+package utf8lib
+
+// C06: utf8.char charges the worst-case size of its buffer before allocating it.
+//@ func char
+//@   prop C06
+//@   arith int
+//@   norte
+//@   requires t != nil && t.Runtime != nil && c != nil
+//@   modifies everything()
+//@   exits any
+//@   allocs charged slack 0
+//@   loop 1: invariant true
